@@ -49,7 +49,10 @@ fn real_view(st: &StateH) -> (Vec<usize>, Vec<usize>) {
 
 /// Run a sequence on both; Some(detail) on the first disagreement (or a panic of the real code).
 fn run_seq(seq: &[Op]) -> Option<String> {
-    let r = catch_unwind(AssertUnwindSafe(|| run_seq_inner(seq)));
+    run_seq_n(seq, NSLOTS)
+}
+fn run_seq_n(seq: &[Op], nslots: usize) -> Option<String> {
+    let r = catch_unwind(AssertUnwindSafe(|| run_seq_inner(seq, nslots)));
     match r {
         Ok(x) => x,
         Err(_) => Some("real State panicked".to_string()),
@@ -66,9 +69,9 @@ fn applicable(m: &Model, op: Op) -> bool {
     }
 }
 
-fn run_seq_inner(seq: &[Op]) -> Option<String> {
-    let mut st = StateH::new(NSLOTS, 1_000);
-    let mut m = Model { slots: vec![MAXU; NSLOTS], estack: vec![], frames: vec![] };
+fn run_seq_inner(seq: &[Op], nslots: usize) -> Option<String> {
+    let mut st = StateH::new(nslots, 1_000);
+    let mut m = Model { slots: vec![MAXU; nslots], estack: vec![], frames: vec![] };
     let mut ctr = 0usize;
     for (i, &op) in seq.iter().enumerate() {
         if !applicable(&m, op) {
@@ -178,7 +181,8 @@ fn op_from_json(v: &Value) -> Option<Op> {
 impl Family for StateOps {
     fn search(&self, budget: &mut Budget, seed: u64) -> Option<(Value, String)> {
         let alpha = ops_alphabet();
-        // iterative deepening, exhaustive per length while the budget lasts
+        let start = std::time::Instant::now();
+        // iterative deepening, exhaustive per length while the first half of the budget lasts
         for len in 1..=8usize {
             let mut idx = vec![0usize; len];
             loop {
@@ -187,8 +191,8 @@ impl Family for StateOps {
                 if let Some(d) = run_seq(&seq) {
                     return Some((json!({"ops": seq.iter().map(|&o| op_to_json(o)).collect::<Vec<_>>()}), d));
                 }
-                if budget.evals % 4096 == 0 && budget.expired() {
-                    return None;
+                if budget.evals % 4096 == 0 && std::time::Instant::now() + (budget.deadline - start) / 2 >= budget.deadline {
+                    break;
                 }
                 // next index vector
                 let mut p = len;
@@ -211,12 +215,82 @@ impl Family for StateOps {
                     break;
                 }
             }
+            // leave the second half of the budget to the long random sequences
+            if std::time::Instant::now() + (budget.deadline - start) / 2 >= budget.deadline {
+                break;
+            }
+        }
+        // long pseudo-random sequences over 3 / 40 / 300 slots with bursts that save every slot (some twice) inside one level: the shapes
+        // small exhaustive sequences cannot reach (hundreds of records in one level, re-saves far from the first save, deep frame stacks)
+        let mut rng = seed.wrapping_mul(0x9E3779B97F4A7C15) ^ 0x51A7E;
+        let mut next = move || {
+            rng = rng.wrapping_add(0x9E3779B97F4A7C15);
+            let mut z = rng;
+            z = (z ^ (z >> 30)).wrapping_mul(0xBF58476D1CE4E5B9);
+            z = (z ^ (z >> 27)).wrapping_mul(0x94D049BB133111EB);
+            z ^ (z >> 31)
+        };
+        let mut round = 0usize;
+        while !budget.expired() {
+            let nslots = [3usize, 40, 300][round % 3];
+            round += 1;
+            let mut seq: Vec<Op> = vec![];
+            let (mut frames, mut estack): (usize, Vec<usize>) = (0, vec![]);
+            let len = 200 + (next() % 1500) as usize;
+            while seq.len() < len {
+                let r = next() % 100;
+                if r < 6 {
+                    // burst: every slot once, and a prefix of them a second time
+                    for sl in 0..nslots {
+                        seq.push(Op::Save(sl, 1 + (next() % 5) as usize));
+                    }
+                    let again = (next() as usize) % (nslots + 1);
+                    for sl in 0..again {
+                        seq.push(Op::Save(sl, 6 + (next() % 3) as usize));
+                    }
+                } else if r < 60 {
+                    seq.push(Op::Save((next() as usize) % nslots, 1 + (next() % 9) as usize));
+                } else if r < 74 {
+                    if frames < 900 {
+                        seq.push(Op::Push);
+                        frames += 1;
+                    }
+                } else if r < 84 {
+                    if frames > 0 {
+                        seq.push(Op::Pop);
+                        frames -= 1;
+                        // the explicit stack is restored by the pop: forget what we know (only issue checked ops below)
+                        estack.clear();
+                    }
+                } else if r < 90 {
+                    seq.push(Op::Enter);
+                    estack.push(frames);
+                } else if r < 96 {
+                    if let Some(&c) = estack.last() {
+                        if c <= frames {
+                            seq.push(Op::Commit);
+                            estack.pop();
+                            frames = c;
+                        }
+                    }
+                } else if r < 98 {
+                    seq.push(Op::SPush(7));
+                    estack.push(usize::MAX);
+                } else if estack.last() == Some(&usize::MAX) {
+                    seq.push(Op::SPop);
+                    estack.pop();
+                }
+            }
+            budget.evals += 1;
+            if let Some(d) = run_seq_n(&seq, nslots) {
+                return Some((json!({"nslots": nslots, "ops": seq.iter().map(|&o| op_to_json(o)).collect::<Vec<_>>()}), d));
+            }
         }
         None
     }
 
     fn run(&self, w: &Value) -> Option<String> {
         let ops: Vec<Op> = w["ops"].as_array()?.iter().filter_map(op_from_json).collect();
-        run_seq(&ops)
+        run_seq_n(&ops, w["nslots"].as_u64().map_or(NSLOTS, |n| n as usize))
     }
 }
